@@ -37,6 +37,10 @@ func runC12(c *Ctx) {
 			fresh, why := true, ""
 			lay, whyL := true, ""
 			for _, p := range ps {
+				if p.End != EndReturn || len(p.Rets) != 1 {
+					lay, whyL = false, fmt.Sprintf("a path (%s) does not return the concatenation: it panics or never ends", p.CondString())
+					continue
+				}
 				if len(p.Rets) != 1 || p.Rets[0].Op != "mkslice" {
 					fresh, why = false, fmt.Sprintf("a path (%s) returns %s, which is not a freshly made slice: the result shares memory with an input", p.CondString(), p.Rets[0])
 					lay, whyL = false, "no fresh result"
@@ -253,6 +257,18 @@ func c12Splice(c *Ctx, rule string, withMulti bool) {
 			continue
 		}
 		ptr, index, val := paramOf(fi, 0), paramOf(fi, 1), paramOf(fi, 2)
+		// inserting at index == len(*slice) moves nothing: there the splice is the append alone
+		{
+			var rest []*Path
+			for _, p := range ps {
+				if !c12EndAppend(p, ptr, index, val, ins.multi) {
+					rest = append(rest, p)
+				}
+			}
+			if len(rest) > 0 {
+				ps = rest
+			}
+		}
 		ok, why := len(ps) == 1, "the function branches (a path that skips the growth or the shift must be justified separately)"
 		// the single-element form as a call of the slice form with a one-element slice holding the value
 		if ok && !ins.multi {
@@ -610,4 +626,60 @@ func c12Fill(c *Ctx, rule string) {
 			}
 		}
 	}
+}
+
+// c12EndAppend: the path has established index == len(*slice) and does nothing but *slice = append(*slice, value(s)).
+func c12EndAppend(p *Path, ptr, index, val *Term, multi bool) bool {
+	if p.End != EndReturn {
+		return false
+	}
+	atEnd := false
+	lenOld := ToPoly(&Term{Op: "builtin", Sym: "len", Args: []*Term{{Op: "load", Args: []*Term{ptr}}}})
+	for _, cd := range p.Conds {
+		if pl, kind, isInt := cd.Rel().IntNorm(); isInt && kind == "=" && pl.Equal(canonSign(ToPoly(index).Add(lenOld, -1))) {
+			atEnd = true
+		}
+	}
+	if !atEnd {
+		return false
+	}
+	var grown *Term
+	held := 0
+	for i := range p.Events {
+		e := &p.Events[i]
+		switch {
+		case e.Kind == "store" && e.Addr.Key() == ptr.Key():
+			if grown != nil {
+				return false
+			}
+			grown = e.Val
+		case e.Kind == "store" && e.Addr.Op == "iaddr" && e.Addr.Args[0].Op == "alloc":
+			if e.Val.Key() != val.Key() || !e.Addr.Args[1].IsConst("0") {
+				return false
+			}
+			held++
+		case e.Kind == "call" && (e.Name == "builtin.append" || e.Name == "builtin.len"):
+		default:
+			return false
+		}
+	}
+	if grown == nil || !(grown.Op == "builtin" && grown.Sym == "append" && len(grown.Args) == 2 && grown.Args[0].Op == "load" && grown.Args[0].Args[0].Key() == ptr.Key()) {
+		return false
+	}
+	if multi {
+		return grown.Args[1].Key() == val.Key()
+	}
+	arr := grown.Args[1]
+	for arr != nil && arr.Op == "slice" {
+		arr = arr.Args[0]
+	}
+	if arr == nil || arr.Op != "alloc" || held != 1 {
+		return false
+	}
+	if pt, isP := arr.Typ.Underlying().(*types.Pointer); isP {
+		if at, isA := pt.Elem().Underlying().(*types.Array); isA && at.Len() == 1 {
+			return true
+		}
+	}
+	return false
 }
